@@ -325,7 +325,7 @@ func routerOpts(c cfgT, mk func(id int) any, log *[]change, id *ids, nfac *int, 
 	}
 }
 
-var namePool = []string{"a", "b", "fb1", "fb2", "auto1", "auto2", "zz", ""}
+var namePool = []string{"a", "b", "fb1", "fb2", "auto1", "auto2", "zz", "", " ", "a ", "A", "\u00a0"}
 
 func (g *c12) randCfg() cfgT {
 	c := cfgT{fb: map[string]int{}, first: 1000}
@@ -515,135 +515,31 @@ func (g *c12) typedHistory(e routerEntry, scriptsPerMethod int) {
 		nextAdd++
 	}
 
-	type meth struct {
-		md     protoreflect.MethodDescriptor
-		unary  *grpc.MethodDesc
-		stream *grpc.StreamDesc
-	}
-	var meths []meth
-	for i := range reg.desc.Methods {
-		m := &reg.desc.Methods[i]
-		meths = append(meths, meth{md: sd.Methods().ByName(protoreflect.Name(m.MethodName)), unary: m})
-	}
-	for i := range reg.desc.Streams {
-		s := &reg.desc.Streams[i]
-		meths = append(meths, meth{md: sd.Methods().ByName(protoreflect.Name(s.StreamName)), stream: s})
-	}
+	meths := methodsOf(reg, sd)
 	nstream, nunary := 0, 0
 	for _, m := range meths {
 		if m.md == nil {
 			g.direct("method-not-in-descriptor:"+e.File, "registered method missing from the service descriptor", e.File)
 			continue
 		}
-		full := "/" + string(sd.FullName()) + "/" + string(m.md.Name())
 		for sc := 0; sc < scriptsPerMethod; sc++ {
 			for g.r.Chance(30) {
 				randReg()
 			}
 			name := g.pickName(presentList())
-			req := g.randMsg(m.md.Input())
-			nf := nameField(req)
-			if nf == nil || nf.Kind() != protoreflect.StringKind || nf.IsList() {
-				g.direct("request-without-name:"+full, "request type has no string name field", full)
+			out := g.driveRPC(reg, sd, m, name, w)
+			if out == nil {
 				continue
 			}
-			req.ProtoReflect().Set(nf, protoreflect.ValueOfString(name))
-			sent := detBytes(req)
-			isStream := m.stream != nil
-			script, pool := g.childScript(m.md.Output(), isStream)
-			w.calls, w.script, w.last = nil, script, nil
-			var tr string
-			var jtr map[string]any
-			var opCoq string
-			jop := map[string]any{"op": "rpc", "method": full, "name": name, "child": script}
-			if isStream {
+			if out.stream {
 				nstream++
-				k := g.callerScript(len(script.Msgs))
-				ctx, cancel := context.WithCancel(context.Background())
-				ss := &fakeServerStream{ctx: ctx, req: req, k: k}
-				err := func() (err error) {
-					defer func() {
-						if p := recover(); p != nil {
-							g.direct("panic:"+full, fmt.Sprintf("router method panicked: %v", p), jop)
-							err = status.Error(codes.Internal, "panic")
-						}
-					}()
-					return m.stream.Handler(reg.impl, ss)
-				}()
-				cancelled, recvs := false, 0
-				if w.last != nil {
-					cancelled = w.last.ctx.Err() != nil
-					recvs = w.last.recvs
-					if w.last.trlEarly > 0 {
-						g.direct("trailer-before-end:"+full, "router read the child's trailer before the child stream had ended", jop)
-					}
-					if w.last.afterEnd > 0 {
-						g.direct("recv-after-end:"+full, "router kept calling Recv after the child stream ended", jop)
-					}
-				}
-				cancel()
-				for _, p := range ss.problems {
-					g.direct("caller-protocol:"+full, p, jop)
-				}
-				msgIDs := make([]string, len(ss.sent))
-				jm := make([]int, len(ss.sent))
-				for i, b := range ss.sent {
-					jm[i] = canonID(pool, b)
-					msgIDs[i] = vcoq.Int(jm[i])
-				}
-				tr = vcoq.App("mkTr", coqOptMD(ss.headerSent, ss.header), vcoq.List(msgIDs), coqOptMD(ss.trailerSet, ss.trailer),
-					coqErr(err), vcoq.Bool(cancelled), vcoq.Int(recvs))
-				jtr = map[string]any{"header": ss.header, "header_sent": ss.headerSent, "msgs": jm, "trailer": ss.trailer,
-					"trailer_set": ss.trailerSet, "status": jsErr(err), "child_cancelled": cancelled, "recvs": recvs}
-				jop["caller"] = k
-				opCoq = vcoq.App("HStream", coqStr(name), coqChild(script), coqCaller(k))
+				ops = append(ops, vcoq.App("HStream", coqStr(name), out.child, out.caller))
 			} else {
 				nunary++
-				var resp any
-				var err error
-				func() {
-					defer func() {
-						if p := recover(); p != nil {
-							g.direct("panic:"+full, fmt.Sprintf("router method panicked: %v", p), jop)
-							err = status.Error(codes.Internal, "panic")
-						}
-					}()
-					resp, err = m.unary.Handler(reg.impl, context.Background(), func(in any) error {
-						proto.Merge(in.(proto.Message), req)
-						return nil
-					}, nil)
-				}()
-				var got []string
-				var jm []int
-				if pm, ok := resp.(proto.Message); ok && resp != nil && !isNilMsg(pm) {
-					jm = append(jm, canonID(pool, detBytes(pm)))
-					got = append(got, vcoq.Int(jm[0]))
-				}
-				tr = vcoq.App("mkTr", "None", vcoq.List(got), "None", coqErr(err), "false", "0")
-				jtr = map[string]any{"msgs": jm, "status": jsErr(err)}
-				us := ""
-				if script.OpenErr != nil {
-					us = vcoq.App("UErr", vcoq.Pair(vcoq.Int(stCode(script.OpenErr)), coqStr(script.OpenErr.Msg)))
-				} else {
-					us = vcoq.App("UResp", "1")
-				}
-				opCoq = vcoq.App("HUnary", coqStr(name), us)
+				ops = append(ops, vcoq.App("HUnary", coqStr(name), out.child))
 			}
-			calls := make([]string, len(w.calls))
-			jcalls := make([]any, len(w.calls))
-			for i, c := range w.calls {
-				mok := c.Method == full
-				rok := !c.ReqSet || string(c.Req) == string(sent)
-				calls[i] = "(" + vcoq.Int(c.Client) + ", " + vcoq.Bool(mok) + ", " + vcoq.Bool(rok) + ")"
-				jcalls[i] = map[string]any{"client": c.Client, "method": c.Method, "request_intact": rok}
-			}
-			if !proto.Equal(req, mustUnmarshal(req, sent)) {
-				g.direct("request-mutated:"+full, "router modified the caller's request", jop)
-			}
-			jop["calls"], jop["transcript"] = jcalls, jtr
-			ops = append(ops, opCoq)
-			obs = append(obs, vcoq.App("HCalled", vcoq.List(calls), tr))
-			jops = append(jops, jop)
+			obs = append(obs, vcoq.App("HCalled", out.calls, out.tr))
+			jops = append(jops, out.jop)
 		}
 	}
 	for i := g.r.Range(0, 3); i > 0; i-- {
@@ -655,6 +551,144 @@ func (g *c12) typedHistory(e routerEntry, scriptsPerMethod int) {
 		Tags: []string{"router-history", fmt.Sprintf("rpcs:unary=%d", min(nunary, 1)), fmt.Sprintf("rpcs:stream=%d", min(nstream, 1))}})
 	g.o.Extra["rpcs_unary"] = g.o.Extra["rpcs_unary"].(int) + nunary
 	g.o.Extra["rpcs_stream"] = g.o.Extra["rpcs_stream"].(int) + nstream
+}
+
+type meth struct {
+	md     protoreflect.MethodDescriptor
+	unary  *grpc.MethodDesc
+	stream *grpc.StreamDesc
+}
+
+// methodsOf lists every method of the service description a router registered.
+func methodsOf(reg *registrar, sd protoreflect.ServiceDescriptor) []meth {
+	var meths []meth
+	for i := range reg.desc.Methods {
+		m := &reg.desc.Methods[i]
+		meths = append(meths, meth{md: sd.Methods().ByName(protoreflect.Name(m.MethodName)), unary: m})
+	}
+	for i := range reg.desc.Streams {
+		s := &reg.desc.Streams[i]
+		meths = append(meths, meth{md: sd.Methods().ByName(protoreflect.Name(s.StreamName)), stream: s})
+	}
+	return meths
+}
+
+// rpcOut is one RPC driven through a router: the scripts played (Coq terms), who was called, and
+// what the caller received.
+type rpcOut struct {
+	stream bool
+	child  string // mkChild ... (stream) or UResp/UErr (unary)
+	caller string // mkCaller ... (stream only)
+	calls  string
+	tr     string
+	jop    map[string]any
+}
+
+// driveRPC sends one request naming `name` through method m of the router behind reg (through the
+// handler of the grpc.ServiceDesc it registered), with a random child script and caller script.
+// The fake clients of world w record who was called.  nil: the request type has no string name.
+func (g *c12) driveRPC(reg *registrar, sd protoreflect.ServiceDescriptor, m meth, name string, w *world) *rpcOut {
+	full := "/" + string(sd.FullName()) + "/" + string(m.md.Name())
+	req := g.randMsg(m.md.Input())
+	nf := nameField(req)
+	if nf == nil || nf.Kind() != protoreflect.StringKind || nf.IsList() {
+		g.direct("request-without-name:"+full, "request type has no string name field", full)
+		return nil
+	}
+	req.ProtoReflect().Set(nf, protoreflect.ValueOfString(name))
+	sent := detBytes(req)
+	isStream := m.stream != nil
+	script, pool := g.childScript(m.md.Output(), isStream)
+	w.calls, w.script, w.last = nil, script, nil
+	var tr string
+	var jtr map[string]any
+	out := &rpcOut{}
+	jop := map[string]any{"op": "rpc", "method": full, "name": name, "child": script}
+	if isStream {
+		k := g.callerScript(len(script.Msgs))
+		ctx, cancel := context.WithCancel(context.Background())
+		ss := &fakeServerStream{ctx: ctx, req: req, k: k}
+		err := func() (err error) {
+			defer func() {
+				if p := recover(); p != nil {
+					g.direct("panic:"+full, fmt.Sprintf("router method panicked: %v", p), jop)
+					err = status.Error(codes.Internal, "panic")
+				}
+			}()
+			return m.stream.Handler(reg.impl, ss)
+		}()
+		cancelled, recvs := false, 0
+		if w.last != nil {
+			cancelled = w.last.ctx.Err() != nil
+			recvs = w.last.recvs
+			if w.last.trlEarly > 0 {
+				g.direct("trailer-before-end:"+full, "router read the child's trailer before the child stream had ended", jop)
+			}
+			if w.last.afterEnd > 0 {
+				g.direct("recv-after-end:"+full, "router kept calling Recv after the child stream ended", jop)
+			}
+		}
+		cancel()
+		for _, p := range ss.problems {
+			g.direct("caller-protocol:"+full, p, jop)
+		}
+		msgIDs := make([]string, len(ss.sent))
+		jm := make([]int, len(ss.sent))
+		for i, b := range ss.sent {
+			jm[i] = canonID(pool, b)
+			msgIDs[i] = vcoq.Int(jm[i])
+		}
+		tr = vcoq.App("mkTr", coqOptMD(ss.headerSent, ss.header), vcoq.List(msgIDs), coqOptMD(ss.trailerSet, ss.trailer),
+			coqErr(err), vcoq.Bool(cancelled), vcoq.Int(recvs))
+		jtr = map[string]any{"header": ss.header, "header_sent": ss.headerSent, "msgs": jm, "trailer": ss.trailer,
+			"trailer_set": ss.trailerSet, "status": jsErr(err), "child_cancelled": cancelled, "recvs": recvs}
+		jop["caller"] = k
+		out.stream, out.child, out.caller = true, coqChild(script), coqCaller(k)
+	} else {
+		var resp any
+		var err error
+		func() {
+			defer func() {
+				if p := recover(); p != nil {
+					g.direct("panic:"+full, fmt.Sprintf("router method panicked: %v", p), jop)
+					err = status.Error(codes.Internal, "panic")
+				}
+			}()
+			resp, err = m.unary.Handler(reg.impl, context.Background(), func(in any) error {
+				proto.Merge(in.(proto.Message), req)
+				return nil
+			}, nil)
+		}()
+		var got []string
+		var jm []int
+		if pm, ok := resp.(proto.Message); ok && resp != nil && !isNilMsg(pm) {
+			jm = append(jm, canonID(pool, detBytes(pm)))
+			got = append(got, vcoq.Int(jm[0]))
+		}
+		tr = vcoq.App("mkTr", "None", vcoq.List(got), "None", coqErr(err), "false", "0")
+		jtr = map[string]any{"msgs": jm, "status": jsErr(err)}
+		us := ""
+		if script.OpenErr != nil {
+			us = vcoq.App("UErr", vcoq.Pair(vcoq.Int(stCode(script.OpenErr)), coqStr(script.OpenErr.Msg)))
+		} else {
+			us = vcoq.App("UResp", "1")
+		}
+		out.child = us
+	}
+	calls := make([]string, len(w.calls))
+	jcalls := make([]any, len(w.calls))
+	for i, c := range w.calls {
+		mok := c.Method == full
+		rok := !c.ReqSet || string(c.Req) == string(sent)
+		calls[i] = "(" + vcoq.Int(c.Client) + ", " + vcoq.Bool(mok) + ", " + vcoq.Bool(rok) + ")"
+		jcalls[i] = map[string]any{"client": c.Client, "method": c.Method, "request_intact": rok}
+	}
+	if !proto.Equal(req, mustUnmarshal(req, sent)) {
+		g.direct("request-mutated:"+full, "router modified the caller's request", jop)
+	}
+	jop["calls"], jop["transcript"] = jcalls, jtr
+	out.calls, out.tr, out.jop = vcoq.List(calls), tr, jop
+	return out
 }
 
 func isNilMsg(m proto.Message) bool { return m == nil || !m.ProtoReflect().IsValid() }
@@ -729,11 +763,15 @@ func (g *c12) rawHistory(n int) {
 }
 
 func genC12(o *vcoq.Out, r *vcoq.Rand, tier string) error {
-	o.Header = "From SC Require Import Base.Prelude Router.Registry Router.Pump Router.Route Router.RouterGet Router.RouterCb Router.RegistryW Router.NameDefault Router.C12Judge."
+	o.Header = "From SC Require Import Base.Prelude Router.Registry Router.Pump Router.Route Router.RouterGet Router.RouterCb Router.RegistryW Router.RouteW Router.NameDefault Router.C12Judge."
 	o.CaseType = "c12case"
 	o.Judge = "judge"
 	o.Shard = 60
-	o.Rule = "one history per generated router per round: registry ops (Add/Remove/Has/Get, wrong-type Add) around 2-3 RPCs for every method of the service (names: registered, fallback, factory, unknown, empty; child scripts: 0-4 messages, header, optional trailer, status or EOF, open/header errors; caller failing SendHeader or the i-th Send); bare-registry histories of 6-25 ops incl. nil clients and re-added clients; forced schedules: all interleavings of 2 and 3 concurrent calls (Get/Add/Remove, up to 3 atomic steps each) in several configurations plus random 3-4 thread schedules; default-name interceptors on every request type (name empty / set) and odd shapes, and sequences of 6-16 requests of types sharing short names across packages/parents with different layouts (name at another number, absent, non-string, repeated) through one unary and one stream interceptor instance; stream sessions: 2-5 request messages (same or mixed types, empty/set names, a failing RecvMsg in the middle) received on ONE wrapped ServerStream, every message checked. Non-trivial: history with at least one RPC / more than one change / schedule with at least two Gets of one name / request with a string name field. Distinct by the full input+observation term."
+	o.Rule = "one history per generated router per round: registry ops (Add/Remove/Has/Get, wrong-type Add) around 2-3 RPCs for every method of the service (names: registered, fallback, factory, unknown, empty; child scripts: 0-4 messages, header, optional trailer, status or EOF, open/header errors; caller failing SendHeader or the i-th Send); bare-registry histories of 6-25 ops incl. nil clients and re-added clients; forced schedules: all interleavings of 2 and 3 concurrent calls (Get/Add/Remove, up to 3 atomic steps each) in several configurations plus random 3-4 thread schedules; default-name interceptors on every request type (name empty / set) and odd shapes, and sequences of 6-16 requests of types sharing short names across packages/parents with different layouts (name at another number, absent, non-string, repeated) through one unary and one stream interceptor instance; names drawn from classes empty / plain / blank ASCII / unicode white space / padded / odd (case, NUL, quotes, non-ASCII, 300 bytes), rendered byte-exactly; explicit-presence and JSON-name-crossed name fields; FullMethod and stream kinds varied; histories on every generated router built from an option subset (typed WithXxxClientFactory or router.WithFactory) in which every lookup (Router.Get, GetXxxClient, unary and streaming methods) has its own fallback/factory outcome nil,nil / nil,err / client+err / client,nil and both results of every Get are observed; stream sessions: 2-5 request messages (same or mixed types, empty/set names, a failing RecvMsg in the middle) received on ONE wrapped ServerStream, every message checked. Non-trivial: history with at least one RPC / more than one change / schedule with at least two Gets of one name / request with a string name field. Distinct by the full input+observation term."
+	// vcoq.NewRand(seed) is seed*G + c and every draw adds G: the streams of consecutive seeds are
+	// one stream shifted by one draw and re-synchronise after the first variable-length choice.
+	// Re-seed from a mixed draw so that different VERIF_SEEDs give unrelated runs.
+	r = vcoq.NewRand(r.U64() ^ 0xC12C12C12)
 	g := &c12{o: o, r: r, tier: tier}
 	o.Extra["rpcs_unary"], o.Extra["rpcs_stream"] = 0, 0
 	rounds, raws := 3, 400
@@ -758,6 +796,16 @@ func genC12(o *vcoq.Out, r *vcoq.Rand, tier string) error {
 			g.regwHistory(opts, g.r.Range(4, 14))
 		}
 	}
+	// generated routers built from every option subset, per-call fallback/factory outcomes incl. client+error
+	nx := 2
+	if tier == "thorough" {
+		nx = 16
+	}
+	for round := 0; round < nx; round++ {
+		for i, e := range routerTable {
+			g.routewHistory(e, []int{1, 2, 3, 3, 5, 6, 7, 7, 7, 0}[(i+round+g.r.Intn(10))%10])
+		}
+	}
 	g.schedules()
 	g.nameDefaults()
 	g.defaultSequences()
@@ -770,7 +818,7 @@ func genC12(o *vcoq.Out, r *vcoq.Rand, tier string) error {
 	// outcome classes of the per-call model (RegistryW.v) and accessor use, for the evidence
 	classes := map[string]any{}
 	for k, v := range o.Extra {
-		if strings.HasPrefix(k, "w:") || strings.HasPrefix(k, "acc:") {
+		if strings.HasPrefix(k, "w:") || strings.HasPrefix(k, "acc:") || strings.HasPrefix(k, "x:") || strings.HasPrefix(k, "name:") {
 			classes[k] = v
 		}
 	}
